@@ -381,6 +381,80 @@ func c13ObjectHistory(r *pvRun, sc *pvScen, rng *kc.Rng) {
 	})
 }
 
+// c13DecBatch: DecShareBatch is DecShare applied to every element of the lists: the triples it returns are exactly
+// those for which DecShare succeeds on (X[i], sH[i], challenge[i], encShares[i]), in order, with the same
+// decrypted values. The lists mix the trustee's own share with tuples carrying another trustee's key, another
+// commitment, and complete tuples of other trustees.
+func c13DecBatch(r *pvRun, sc *pvScen, rng *kc.Rng) {
+	h := sc.h
+	if len(sc.enc) < 2 || sc.n < 2 {
+		return
+	}
+	j := rng.Intn(sc.n)
+	i := (j + 1 + rng.Intn(sc.n-1)) % sc.n
+	x := h.sc(sc.xs[j])
+	c := sc.enc[j].P.C // the global challenge of the dealing
+	sHof := func(k int) kyber.Point { return sc.pub.Eval(uint32(k)).V }
+	type ent struct {
+		X, sH kyber.Point
+		e     *pvss.PubVerShare
+		what  string
+	}
+	ents := []ent{
+		{sc.X[j], sHof(j), sc.enc[j], "own share"},
+		{sc.X[i], sHof(j), sc.enc[j], "own share listed under another trustee's key"},
+		{sc.X[j], sHof(i), sc.enc[j], "own share listed with another commitment"},
+		{sc.X[i], sHof(i), sc.enc[i], "another trustee's complete tuple"},
+		{sc.X[j], sHof(j), sc.enc[j], "own share again"},
+		{sc.X[j], sHof(j), sc.enc[i], "another trustee's share listed under the own key"},
+	}
+	// the first element stays the honest one; the others in random order
+	for a := len(ents) - 1; a > 1; a-- {
+		b := 1 + rng.Intn(a)
+		ents[a], ents[b] = ents[b], ents[a]
+	}
+	var X, sH []kyber.Point
+	var cs []kyber.Scalar
+	var E []*pvss.PubVerShare
+	var want []int
+	var wantV []kyber.Point
+	pvGuard(r.c, "DecShareBatch", func() {
+		for k, en := range ents {
+			X, sH, cs, E = append(X, en.X), append(sH, en.sH), append(cs, c), append(E, en.e)
+			if d, err := pvss.DecShare(sc.su, sc.H, en.X, en.sH, x, c, en.e); err == nil {
+				want = append(want, k)
+				wantV = append(wantV, d.S.V)
+			}
+		}
+		K, EE, D, err := pvss.DecShareBatch(sc.su, sc.H, X, sH, x, cs, E)
+		r.c.Eval(len(ents))
+		r.c.CountKind(h.name + ":DecShareBatch")
+		rep := map[string]any{"group": h.name, "n": sc.n, "t": sc.t, "trustee": j, "other": i}
+		var order []string
+		for _, en := range ents {
+			order = append(order, en.what)
+		}
+		rep["elements"] = order
+		bad := ""
+		switch {
+		case err != nil:
+			bad = "error " + err.Error()
+		case len(K) != len(want) || len(EE) != len(want) || len(D) != len(want):
+			bad = fmt.Sprintf("returns %d/%d/%d triples, DecShare succeeds on %d elements (%v)", len(K), len(EE), len(D), len(want), want)
+		default:
+			for k, w := range want {
+				if !K[k].Equal(ents[w].X) || EE[k] != ents[w].e || !D[k].S.V.Equal(wantV[k]) || D[k].S.I != ents[w].e.S.I {
+					bad = fmt.Sprintf("triple %d is not the result of DecShare on element %d (%s)", k, w, ents[w].what)
+					break
+				}
+			}
+		}
+		if bad != "" {
+			r.c.Violation("C13:DecShareBatch:not-elementwise", fmt.Sprintf("%s: DecShareBatch %s", h.name, bad), rep)
+		}
+	})
+}
+
 // c13WeakFS: a trustee that knows its key but wants a WRONG decrypted share accepted. The decryption proof is a
 // Fiat–Shamir proof whose statement contains a value the prover picks itself (the decrypted share): if the
 // challenge does not cover every part of statement and commitment, the part left out can be solved for after
@@ -1311,6 +1385,7 @@ func runC13(c *kc.Ctx) {
 					c13OffsetDealer(r, sc, rng.Fork(fmt.Sprint("offset", n, t, rep)))
 					c13WeakFS(r, sc, rng.Fork(fmt.Sprint("weakfs", n, t, rep)))
 					c13ObjectHistory(r, sc, rng.Fork(fmt.Sprint("objhist", n, t, rep)))
+					c13DecBatch(r, sc, rng.Fork(fmt.Sprint("decbatch", n, t, rep)))
 					srng := rng.Fork(fmt.Sprint("mut", n, t, rep))
 					stage2 = append(stage2, func() { c13Stage2(r, sc, srng, qh) })
 					stage3 = append(stage3, st3{sc, rng.Fork(fmt.Sprint("rec", n, t, rep)), n <= exhN})
